@@ -3,6 +3,6 @@ from .worldcommon import ASSUME, TRUSTED
 
 SPEC = dict(id="C07", kind="world", monitor="job_ok",
     coq_targets=["theories/Props/C07.vo", "theories/Corr/WorldAll.vo"],
-    level_text='Per-reconcile theorems for every snapshot: run object created only for a trial seen as not completed, deleted only for a completed one with retain=false, finalizer release planned only directly behind DeleteObservationLog with stop-on-failure; the run-level statements (at most one create per trial ever, create/delete only in the right trial state of the store, job exists iff retain at quiescence, DB delete before finalizer release) are monitored on the implementation with the model compared step by step',
-    level_note='run-level lifting (store state at the time the write lands) is monitored, not yet a theorem' + "; " + "; ".join(ASSUME),
+    level_text='Theorems over all runs of the joint controller model (JobInv, inductive over every step given the store invariant): the log of successful run-object creations has no duplicates (C07_created_once), a creation lands only while the stored trial is unfinished and never for a completed one, a deletion lands only with retain=false for a trial completed in cache and store, with retain every created run object is still present, at rest with retain=false none is left; C07_finalizer_after_db_delete holds for every history including teardown with no assumption. Per-reconcile theorems for every snapshot underneath. The same statements are monitored on the real reconcilers with the model compared step by step (ghost logs of creates / deletes / DB deletes / finalizer releases are part of the comparison)',
+    level_note='the run-level theorems about creation and deletion assume no teardown and no deletion of a run object by something other than katib (action JobGone): with such a deletion inside a trial-cache lag the unchanged controller re-creates the run object (DESIGN.md, remark on C07); equality of the created object with the run spec and its owner reference is C02' + "; " + "; ".join(ASSUME),
     assumptions=ASSUME, trusted_base=TRUSTED)
